@@ -17,6 +17,11 @@ For every job (= one descriptor chosen by TLC, spec/Gate.tla):
            them failed (returned False or raised)
   cli      (sample) `python -m dawgie.tools.compliant --ae-dir --ae-pkg` as a
            process, exit status recorded
+  cli_env  (sample, job["env"] = {dec, at}) the same command in the environment
+           of a pipeline: a DECOY copy of the same base package (descriptor
+           dec: same layout, opposite compliance) is written to a second
+           directory that is listed at the front / back of PYTHONPATH of the
+           process; --ae-dir points at the submitted tree
   sched    for every package the gate accepted (and every conforming one):
            scan.for_factories -> version.current -> schedule.build (which is
            dag.Construct) -> schedule.periodics -> schedule.organize ->
@@ -25,7 +30,7 @@ For every job (= one descriptor chosen by TLC, spec/Gate.tla):
 Nothing is decided here: the records go to TLC (spec/Gate_Trace.tla).
 
 usage: python -m harness.gate_h <jobs.json> <out.ndjson>
- jobs.json = {"jobs": [ {"id": n, "d": {kinds, shape, vals, evs, viol, pos:{k,e}}, "cli": bool} ], }
+ jobs.json = {"jobs": [ {"id": n, "d": {kinds, shape, vals, evs, viol, pos:{k,e}}, "cli": bool, "env": {"dec": {..}, "at": "front"|"back"} (optional)} ], }
  environment: VERIF_GATE_MUTANT=<name> applies an in-memory mutant of the real
  gate (self-test of the binding; never written to /repo)
 '''
@@ -611,8 +616,12 @@ def gate(base, aedir, put):
     return obs
 
 
-def cli(base, aedir, put, explicit):
+def cli(base, aedir, put, explicit, decoy_root=None, at='-'):
     env = dict(os.environ)
+    if decoy_root:  # the environment already offers a copy of the base package
+        pp = [p for p in env.get('PYTHONPATH', '').split(os.pathsep) if p]
+        pp = [decoy_root] + pp if at == 'front' else pp + [decoy_root]
+        env['PYTHONPATH'] = os.pathsep.join(pp)
     cmd = [sys.executable, '-m', 'dawgie.tools.compliant', f'--ae-dir={aedir}', f'--ae-pkg={base}', '--verbose']
     if explicit:
         cmd += ['-t', put]
@@ -648,10 +657,14 @@ def sched(base, aedir):
     return res
 
 
-def run_job(job, root):
-    d = job['d']
+def norm(d):
     d.setdefault('vals', 'own')
     d.setdefault('evs', 'boot_dow')
+    return d
+
+
+def run_job(job, root):
+    d = norm(job['d'])
     base = f'g{job["id"]}'
     put = base + '.t0'
     aedir = os.path.join(root, base)
@@ -666,6 +679,16 @@ def run_job(job, root):
         rc, out = cli(base, aedir, put, explicit=not d['kinds'])
         o2 = dict(o, cli_run=True, cli_rc=rc, err=('' if 'returning' in out else out[-200:]))
         steps.append({'ev': 'cli', 'obs': o2})
+    envj = job.get('env')
+    if envj:
+        # the decoy: same base package name, other directory; importable through PYTHONPATH of the command only
+        droot = os.path.join(WORK, 'decoy', base)
+        _desc, dsrcs = materialise(norm(envj['dec']), base)
+        write_tree(dsrcs, droot)
+        rc, out = cli(base, aedir, put, explicit=False, decoy_root=droot, at=envj['at'])
+        steps.append({'ev': 'cli_env', 'obs': dict(o, cli_run=True, cli_rc=rc, err=('' if 'returning' in out else out[-200:]))})
+        if not os.environ.get('VERIF_GATE_KEEP'):
+            shutil.rmtree(droot, True)
     if g['v_list'] or d['viol'] == 'none':
         s = sched(base, aedir)
         steps.append({'ev': 'sched', 'obs': dict(o, sched_run=True, sched_ok=s['ok'], err=s['err'], nodes=s['nodes'], jobs=s['jobs'])})
@@ -673,7 +696,8 @@ def run_job(job, root):
     dawgie.pl.scan.reset(base)
     if not os.environ.get('VERIF_GATE_KEEP'):
         shutil.rmtree(aedir, True)  # tens of thousands of files otherwise; VERIF_GATE_KEEP=1 keeps the trees
-    return {'tid': job['id'], 'put': put, 'd': d, 'steps': steps}
+    # no nulls for TLC: without an environment case the decoy is a placeholder (the descriptor itself) and at = "-"
+    return {'tid': job['id'], 'put': put, 'd': d, 'dec': (envj['dec'] if envj else d), 'at': (envj['at'] if envj else '-'), 'steps': steps}
 
 
 def main(argv):
